@@ -40,6 +40,37 @@ func (env *Env) callOpaque(sf *SpecFn, sub *Env, vars map[string]SV) SV {
 	if bt.Sort != SBool {
 		env.fail("opaque %s: body is not boolean", sf.Name)
 	}
+	// The reads (the atom's extra arguments) are taken from the body
+	// evaluated on placeholder parameters, so that every application of the
+	// predicate has the same argument list whatever the term constructors
+	// fold away for particular arguments (a known type tag, a literal).
+	gvars := map[string]SV{}
+	for k, v := range sub.vars {
+		gvars[k] = v
+	}
+	var phs, acts []string
+	for _, p := range sf.Params {
+		a := vars[p.Name]
+		at := env.term(a)
+		ph := "|@P:" + p.Name + "|"
+		phs = append(phs, ph)
+		acts = append(acts, at.S)
+		if pv, ok := a.V.(PtrV); ok && !a.Loc {
+			gvars[p.Name] = SV{V: PtrV{Base: Term{ph, SRef}, Root: pv.Root}, T: a.T}
+		} else {
+			gvars[p.Name] = SV{V: Scalar{Term{ph, at.Sort}}, T: a.T}
+		}
+	}
+	ginner := inner
+	ginner.vars = gvars
+	gbt := env.term(ginner.eval(sf.Body))
+	bt.S, gbt.S = gbt.S, bt.S // bt: generic body (reads); gbt: body on the actual arguments (definition)
+	subst := func(s string) string {
+		for i, ph := range phs {
+			s = strings.ReplaceAll(s, ph, acts[i])
+		}
+		return s
+	}
 	var names []string
 	for n := range alias {
 		names = append(names, n)
@@ -84,11 +115,11 @@ func (env *Env) callOpaque(sf *SpecFn, sub *Env, vars map[string]SV) SV {
 				sorts = append(sorts, string(alias[n].Sort))
 				continue
 			}
-			args = append(args, unalias("(select "+a+" "+idx+")"))
+			args = append(args, subst(unalias("(select "+a+" "+idx+")")))
 			sorts = append(sorts, string(vs))
 		}
 	}
-	real := unalias(bt.S)
+	real := unalias(gbt.S)
 	fname := "op!" + sf.Name
 	decl := fmt.Sprintf("(declare-fun %s (%s) Bool)", fname, strings.Join(sorts, " "))
 	found := false
